@@ -21,6 +21,25 @@
 using namespace datasketches;
 using vh::I; using vh::Line; using vh::Out;
 
+
+// a small stateful allocator: every instance carries an arena id; allocations are counted per arena.
+// Arena 0 is what a default-constructed allocator uses: the library must never allocate from it when the user passed arena 7.
+namespace tagalloc {
+static long live[16]; static long total[16];
+template<typename T> struct alloc {
+  typedef T value_type;
+  int id;
+  alloc() : id(0) {}
+  explicit alloc(int i) : id(i) {}
+  template<typename U> alloc(const alloc<U>& o) : id(o.id) {}
+  T* allocate(size_t n) { live[id & 15]++; total[id & 15]++; return std::allocator<T>().allocate(n); }
+  void deallocate(T* p, size_t n) { live[id & 15]--; std::allocator<T>().deallocate(p, n); }
+  template<typename U> struct rebind { typedef alloc<U> other; };
+  template<typename U> bool operator==(const alloc<U>& o) const { return id == o.id; }
+  template<typename U> bool operator!=(const alloc<U>& o) const { return id != o.id; }
+};
+}
+
 static std::map<long, std::unique_ptr<cpc_sketch>> sk;
 static std::map<long, std::unique_ptr<cpc_union>> un;
 
@@ -203,6 +222,48 @@ static void handler(const Line& t, Out& o) {
     cpc_union& u = getu(t.at(1)); const cpc_sketch& s = gets(t.at(2));
     try { u.update(s); } catch (...) { un.erase((long)t.at(1)); throw; }
     o.R(1); break; }
+  case 14: { // union r2 := copy-constructed from union r
+    const cpc_union& u = getu(t.at(1));
+    std::unique_ptr<cpc_union> p(new cpc_union(u));
+    un[(long)t.at(2)] = std::move(p); o.R(1); break; }
+  case 15: { // existing union r2 = union r (copy assignment)
+    const cpc_union& u = getu(t.at(1)); cpc_union& d = getu(t.at(2));
+    d = u; o.R(1); break; }
+  case 16: { // union r2 := move-constructed from union r; r is dropped
+    if (t.at(1) == t.at(2)) throw std::invalid_argument("same register");
+    cpc_union& u = getu(t.at(1));
+    std::unique_ptr<cpc_union> p(new cpc_union(std::move(u)));
+    un.erase((long)t.at(1)); un[(long)t.at(2)] = std::move(p); o.R(1); break; }
+  case 17: { // existing union r2 = std::move(union r); r is dropped
+    if (t.at(1) == t.at(2)) throw std::invalid_argument("same register");
+    cpc_union& u = getu(t.at(1)); cpc_union& d = getu(t.at(2));
+    d = std::move(u); un.erase((long)t.at(1)); o.R(1); break; }
+  case 50: { // allocator scenario: 50 lgu [lg_k count]* : sketches and a union that all use arena 7
+    typedef tagalloc::alloc<uint8_t> TA;
+    typedef cpc_sketch_alloc<TA> tsk; typedef cpc_union_alloc<TA> tun;
+    for (int i = 0; i < 16; i++) { tagalloc::live[i] = 0; tagalloc::total[i] = 0; }
+    bool tag_ok = true;
+    {
+      TA a7(7);
+      tun u((uint8_t)t.at(1), 9001, a7);
+      uint64_t next = 1;
+      for (size_t i = 2; i + 1 < t.size(); i += 2) {
+        tsk s((uint8_t)t[i], 9001, a7);
+        for (I j = 0; j < t[i + 1]; j++) s.update(next++);
+        tag_ok = tag_ok && s.get_allocator().id == 7;
+        if ((i / 2) % 2) u.update(s); else { tsk tmp(s); u.update(std::move(tmp)); }
+        tsk r = u.get_result();
+        tag_ok = tag_ok && r.get_allocator().id == 7;
+        for (int j = 0; j < 40; j++) r.update(next + 1000000 + j);     // growth of the result's table goes through its allocator
+        tag_ok = tag_ok && r.get_allocator().id == 7 && r.validate();
+        tun u2(u); tun u3((uint8_t)t.at(1), 9001, a7); u3 = u;
+        tag_ok = tag_ok && u2.get_result().get_allocator().id == 7 && u3.get_result().get_allocator().id == 7;
+      }
+    }
+    long foreign = 0; for (int i = 0; i < 16; i++) if (i != 7) foreign += tagalloc::total[i];
+    o.R(tag_ok ? 1 : 0); o.R(foreign == 0 ? 1 : 0); o.R(tagalloc::live[7] == 0 && tagalloc::total[7] > 0 ? 1 : 0);
+    o.F(foreign); o.F(tagalloc::total[7]);
+    break; }
   case 13: { // union r update with an rvalue (moved-from temporary copy of sketch r2)
     cpc_union& u = getu(t.at(1)); const cpc_sketch& s = gets(t.at(2));
     try { cpc_sketch tmp(s); u.update(std::move(tmp)); } catch (...) { un.erase((long)t.at(1)); throw; }
